@@ -81,6 +81,13 @@ Definition order_ok (l : list stage) : bool :=
   | _, _, _ => false
   end.
 
+(* the content-rewriting rules run before the wrapper: the wrapper measures the text that is emitted *)
+Definition rewriters_before_wrapper (l : list stage) : bool :=
+  match index_of_name "LowercaseKeywords" l 0, index_of_name "CommentFormatter" l 0, index_of_name "OptimisingLineFormatter" l 0 with
+  | Some a, Some b, Some c => Nat.ltb a c && Nat.ltb b c
+  | _, _, _ => false
+  end.
+
 (* ---- expected inventories: the sites this model accounts for ---- *)
 Definition expected_set_content : list string := [
   "core/src/rules/comment_contents.rs:comment_is_separator";
